@@ -247,3 +247,101 @@ def _(v):
                 ok = False
                 detail = "%s: %s vs %s" % (n, e, want[n])
     v.prove("pairs_in_substance_order_with_exact_rhs", ok, detail)
+
+
+class CapturingSys:
+    """assumed contract 5.6, constructor form: SymbolicSys(dep_exprs, indep, params, names=..., param_names=...) keeps the pairs as given"""
+
+    def __init__(self, dep_exprs, indep=None, params=(), names=(), param_names=(), **kwargs):
+        pairs = list(dep_exprs)
+        self.dep = tuple(d for d, _ in pairs)
+        self.exprs = tuple(e for _, e in pairs)
+        self.indep = indep
+        self.params = tuple(params)
+        self.names = tuple(names)
+        self.param_names = tuple(param_names)
+        self.kwargs = kwargs
+
+
+@harness("C04", "_create_odesys.symbols_handed_in", functions=[ODE + ":_create_odesys"], kind="shape-bounded", samples=0, max_paths=300)
+def _(v):
+    """the explicit builder interpreted from its AST with the caller's own symbols: every dependent variable is paired with the rate of its own
+    substance, in substance order, whatever the iteration order of a plain-dict substance_symbols"""
+    import z3
+    from chempy.kinetics.ode import _create_odesys
+    lays = layouts()["inactive_mix"]
+    rsys, ds, ks = build(v, lays, named=True)
+    psyms = OrderedDict((("kk%d" % i, Sym(z3.Real("P_kk%d" % i))) for i in range(len(lays))))
+    t = Sym(z3.Real("T_time"))
+    v.assume(t != 0)   # a sympy Symbol is truthy ('time_symbol or backend.Symbol("t")'); the Sym standing for it must be too
+    for label, order in (("substance_order", SUBST), ("reversed_plain_dict", SUBST[::-1]), ("rotated_plain_dict", SUBST[2:] + SUBST[:2])):
+        ssyms = {k: Sym(z3.Real("Y_" + k)) for k in order}
+        # precondition of the builder: the time symbol is a different symbol (Sym equality is equality of values, sympy's is structural)
+        for other in list(ssyms.values()) + list(psyms.values()):
+            v.assume(other != t)
+        odesys, extra = v.call(_create_odesys, rsys, substance_symbols=ssyms, parameter_symbols=psyms, backend=FakeBackend(), SymbolicSys=CapturingSys, time_symbol=t)
+        want = spec_rhs(ds, [psyms["kk%d" % i] for i in range(len(lays))], ssyms)
+        v.prove(label + ".names_in_substance_order", list(odesys.names) == SUBST and list(odesys.param_names) == list(psyms))
+        v.prove(label + ".each_dependent_variable_is_its_own_substance", all(d is ssyms[s] for d, s in zip(odesys.dep, SUBST)) and len(odesys.dep) == len(SUBST))
+        v.prove(label + ".each_equation_is_the_rate_of_its_own_substance", SP.conj([v.eq(e, want[s]) for e, s in zip(odesys.exprs, SUBST)]))
+    wrong = OrderedDict((k, Sym(z3.Real("Y_" + k))) for k in SUBST[::-1])
+    for other in wrong.values():
+        v.assume(other != t)
+    out = v.run(_create_odesys, rsys, substance_symbols=wrong, parameter_symbols=psyms, backend=FakeBackend(), SymbolicSys=CapturingSys, time_symbol=t)
+    v.prove("misordered_OrderedDict_refused", out.raised(ValueError))
+
+
+def _two_key_rate(args, temperature, gasconst, backend=None, **kwargs):
+    return args[0] * temperature + gasconst
+
+
+class _Constants:
+    """a namespace of physical constants as get_odesys(constants=...) expects it (attribute access only)"""
+
+    def __init__(self, **kw):
+        self.__dict__.update(kw)
+
+
+@harness("C04", "get_odesys.constants_and_substitutions", functions=[ODE + ":get_odesys", ODE + ":get_odesys.<locals>.dydt", "chempy.kinetics.rates:MassAction.rate_coeff"], kind="shape-bounded", samples=0, max_paths=300)
+def _(v):
+    """which symbols are free and which are bound when both a constants namespace and explicit substitutions are given: an explicit substitution
+    wins over the namespace, a namespace value binds the key it names, everything else stays a parameter; the right-hand side is the kinetic model
+    with exactly those bindings"""
+    from chempy.kinetics.ode import get_odesys
+    from chempy.kinetics.rates import MassAction
+    from chempy.chemistry import Reaction, Substance
+    from chempy.reactionsystem import ReactionSystem
+    MA = MassAction.from_callback(_two_key_rate, argument_names=("a",), parameter_keys=("temperature", "gasconst"))
+    a0, a1 = v.real("a0", lo=0, hi=9), v.real("a1", lo=0, hi=9)
+    n0, n1 = v.int("nu0", lo=1, hi=3), v.int("nu1", lo=1, hi=3)
+    rsys = ReactionSystem([Reaction({"A": n0}, {"B": 1}, MA([a0]), checks=()), Reaction({"B": n1, "C": 1}, {"A": 2}, MA([a1]), checks=())],
+                          [Substance(s) for s in "ABC"], checks=())
+    cR, sR = v.real("gasconst_in_namespace", lo=1, hi=9), v.real("gasconst_substituted", lo=1, hi=9)
+
+    def want(y, T, R):
+        r0 = (a0 * T + R) * SP.spow(y["A"], n0)
+        r1 = (a1 * T + R) * SP.spow(y["B"], n1) * y["C"]
+        return {"A": -n0 * r0 + 2 * r1, "B": r0 - n1 * r1, "C": -r1}
+
+    def check(label, odesys, pnames, R):
+        y = dict(zip(odesys.names, odesys.dep))
+        p = dict(zip(odesys.param_names, odesys.params))
+        v.prove(label + ".free_parameters", list(odesys.param_names) == pnames)
+        if list(odesys.param_names) == pnames:
+            w = want(y, p["temperature"], p["gasconst"] if R is None else R)
+            v.prove(label + ".rhs_with_exactly_these_bindings", SP.conj([v.eq(e, w[s]) for e, s in zip(odesys.exprs, "ABC")]))
+
+    o, _x = v.call(get_odesys, rsys, SymbolicSys=FakeSymbolicSys)
+    check("nothing_bound", o, list(o.param_names), None)
+    v.prove("nothing_bound.both_keys_free", set(o.param_names) == {"temperature", "gasconst"})
+    o, _x = v.call(get_odesys, rsys, constants=_Constants(gasconst=cR), SymbolicSys=FakeSymbolicSys)
+    check("namespace_binds_its_key", o, ["temperature"], cR)
+    o, _x = v.call(get_odesys, rsys, substitutions={"gasconst": sR}, SymbolicSys=FakeSymbolicSys)
+    check("substitution_binds_its_key", o, ["temperature"], sR)
+    o, _x = v.call(get_odesys, rsys, constants=_Constants(gasconst=cR), substitutions={"gasconst": sR}, SymbolicSys=FakeSymbolicSys)
+    check("explicit_substitution_wins_over_namespace", o, ["temperature"], sR)
+    o, _x = v.call(get_odesys, rsys, constants=_Constants(gasconst=cR, unrelated=1.0), substitutions={"temperature": sR}, SymbolicSys=FakeSymbolicSys)
+    y = dict(zip(o.names, o.dep))
+    w = want(y, sR, cR)
+    v.prove("both_bound.no_free_parameters", list(o.param_names) == [])
+    v.prove("both_bound.rhs", SP.conj([v.eq(e, w[s]) for e, s in zip(o.exprs, "ABC")]))
